@@ -1208,8 +1208,8 @@ def main(prop, tier):
                                          'seed': common.h32(seed, 'rnd', lang, j), 'runid': runid}))
             cells.append(('cell_table', {'lang': lang, 'mode': 'sequence', 'count': 120 if quick else 300,
                                          'seed': common.h32(seed, 'seq', lang, j), 'runid': runid}))
-        for j in range((2 if quick else 10) if 'session' in parts_on else 0):
-            cells.append(('cell_session', {'lang': lang, 'count': 16 if quick else 50,
+        for j in range((2 if quick else 16) if 'session' in parts_on else 0):
+            cells.append(('cell_session', {'lang': lang, 'count': 16 if quick else 25,
                                            'seed': common.h32(seed, 'ses', lang, j), 'runid': runid}))
     results = []
     by_fn = {}
